@@ -41,9 +41,117 @@ Definition diag_case (c : string * string) : string :=
 """
 
 
+NUM_PREAMBLE = """From Coq Require Import ZArith.
+From Coq Require Import Floats.SpecFloat.
+From DL Require Import Lib.Bytes Lib.F64 Lua.Syntax Model.NumberLit.
+Open Scope N_scope.
+Open Scope string_scope.
+Definition lit_value (n : number) : f64 :=
+  match n with
+  | NDec bits _ => of_bits bits
+  | NHex i _ None => of_N i
+  | NHex i _ (Some (e, _)) => of_N ((i * (2 ^ e mod 18446744073709551616)) mod 18446744073709551616)
+  | NBin i _ => of_N i
+  end.
+(* value of a written number: the three parenthesised forms for nan / infinities, otherwise the
+   literal read back with correctly rounded decimal -> binary conversion *)
+Definition text_value (t : bytes) : option f64 :=
+  if bytes_eqb t (of_string "(0/0)") then Some S754_nan
+  else if bytes_eqb t (of_string "(1/0)") then Some (S754_infinity false)
+  else if bytes_eqb t (of_string "(-1/0)") then Some (S754_infinity true)
+  else option_map lit_value (from_str t).
+Definition check_case (c : number * string) : bool :=
+  match text_value (unhex (snd c)) with
+  | Some v => same_f64 v (lit_value (fst c))
+  | None => false
+  end.
+Definition diag_case (c : number * string) : string :=
+  match text_value (unhex (snd c)) with
+  | Some v => "reads back as bits " ++ tohex (dec_digits (to_bits v))
+  | None => "does not read back as a number"
+  end.
+"""
+
+PARSE_PREAMBLE = """From Coq Require Import ZArith.
+From DL Require Import Lib.Bytes Lib.F64 Lua.Syntax Model.NumberLit.
+Open Scope N_scope.
+Open Scope string_scope.
+Definition oexp_eqb {A} (eqb : A -> A -> bool) (a b : option (A * bool)) : bool :=
+  match a, b with
+  | None, None => true
+  | Some (x, u), Some (y, v) => eqb x y && Bool.eqb u v
+  | _, _ => false
+  end.
+Definition number_eqb (a b : number) : bool :=
+  match a, b with
+  | NDec x e, NDec y f => N.eqb x y && oexp_eqb Z.eqb e f
+  | NHex x u e, NHex y v f => N.eqb x y && Bool.eqb u v && oexp_eqb N.eqb e f
+  | NBin x u, NBin y v => N.eqb x y && Bool.eqb u v
+  | _, _ => false
+  end.
+Definition check_case (c : string * option number) : bool :=
+  match from_str (unhex (fst c)), snd c with
+  | Some a, Some b => number_eqb a b
+  | None, None => true
+  | _, _ => false
+  end.
+Definition diag_case (c : string * option number) : string :=
+  match from_str (unhex (fst c)) with Some _ => "model accepts" | None => "model rejects" end.
+"""
+
+
+def run_numbers(ctx):
+    n = 600 if ctx.tier == "quick" else 20000
+    out = C.harness("dl-c13", ["numbers", "--seed", str(ctx.seed), "--n", str(n)])
+    cases, seen = [], set()
+    for line in out.splitlines():
+        parts = line.split("\t")
+        if len(parts) != 2 or line in seen:
+            continue
+        seen.add(line)
+        cases.append((len(cases), "(%s, %s)" % (parts[0], C.coq_string(parts[1])), parts[0], parts[1]))
+    bad = C.run_coq_cases(ctx.prop, NUM_PREAMBLE, [(c[0], c[1]) for c in cases], chunk=400, tag="numbers")
+    nontrivial = sum(1 for c in cases if len(c[3]) > 2)
+    ctx.stream("write_number: written text read back (exact decimal->binary) vs the number's value",
+               len(cases), nontrivial,
+               [{"number": c[2], "written": bytes.fromhex(c[3]).decode()} for c in cases[40:43]], mismatches=len(bad))
+    for cid, diag in bad[:3]:
+        c = cases[cid]
+        ctx.violation("a written number does not read back as the same double",
+                      {"number": c[2], "written": bytes.fromhex(c[3]).decode("latin-1"), "diag": diag,
+                       "replay": "generator_utils::write_number on this NumberExpression"},
+                      key="number-write:" + c[2])
+
+    out = C.harness("dl-c13", ["parse", "--seed", str(ctx.seed), "--n", str(n)])
+    cases, seen = [], set()
+    for line in out.splitlines():
+        parts = line.split("\t")
+        if len(parts) != 2 or parts[0] in seen:
+            continue
+        seen.add(parts[0])
+        if parts[1] == "PANIC":
+            ctx.violation("NumberExpression::from_str panicked", {"text_hex": parts[0],
+                          "text": bytes.fromhex(parts[0]).decode("utf-8", "replace")}, key="number-parse-panic:" + parts[0])
+            continue
+        exp = "None" if parts[1] == "ERR" else "(Some %s)" % parts[1]
+        cases.append((len(cases), "(%s, %s)" % (C.coq_string(parts[0]), exp), parts[0], parts[1]))
+    bad = C.run_coq_cases(ctx.prop, PARSE_PREAMBLE, [(c[0], c[1]) for c in cases], chunk=400, tag="parse")
+    accepted = sum(1 for c in cases if c[3] != "ERR")
+    ctx.stream("NumberExpression::from_str: Rust vs Model/NumberLit.from_str (grammar, radix, underscores, exact value)",
+               len(cases), accepted, [{"text": bytes.fromhex(c[2]).decode("utf-8", "replace"), "rust": c[3]} for c in cases[5:8]],
+               mismatches=len(bad))
+    if bad and not ctx.violations:
+        cid, diag = bad[0]
+        c = cases[cid]
+        ctx.violation("correspondence broken: NumberExpression::from_str differs from Model/NumberLit.from_str on %d texts"
+                      % len(bad), {"stream": "from_str model-vs-code", "text": bytes.fromhex(c[2]).decode("utf-8", "replace"),
+                                   "rust": c[3], "diag": diag}, found_input=False)
+
+
 def run(ctx):
     C.build_harness("dl-c13")
-    proofs_ok = C.proof_gate(ctx)
+    proofs_ok = C.proof_gate(ctx, ["Model/NumberLit.vo"])
+    run_numbers(ctx)
 
     n = 1500 if ctx.tier == "quick" else 20000
     args = ["strings", "--seed", str(ctx.seed), "--n", str(n)]
